@@ -321,6 +321,19 @@ def check(ctx, run):
            witness={"record removed before the realloc attempt": removed_before, "NULL path of reallocateMemoryAndLeakInformation calls": null_paths, "re-inserted in reallocMemory": readded},
            what="" if ok else "reallocMemory removes the block's record (and may free a separate record) before PlatformSpecificRealloc is attempted; when it returns NULL the old block is still allocated but no longer tracked")
 
+    # a request the detector itself rejects (size arithmetic would overflow) must not have touched the live block's record
+    for sep in (0, 1):
+        for size in (SIZE_MAX, SIZE_MAX - 7, SIZE_MAX - 17):
+            try:
+                r, seq, heap = fold_layout(rm, size, sep, True)
+            except Unknown as u:
+                run.broke("C05.R3: reallocMemory cannot be folded for an overflowing size: %s" % u)
+                continue
+            kinds = [k for k, a_ in seq]
+            ok = r == 0 and not kinds
+            run.ob("R3", "reallocMemory of a live block to %d bytes (%s record): rejected with NULL before the block's record is touched" % (size, "separate" if sep else "inline"), rm.site, ok, witness={"returns": r, "calls": kinds},
+                   what="" if ok else "the overflowing request returns %s after %s: the old block is still allocated but no longer tracked" % (r, kinds))
+
     # ---------------- R4 ----------------------------------------------------
     from .C10 import slot_vars
     slots = [s for s in slot_vars(prog) if s.startswith("operator_new")]
